@@ -1006,6 +1006,8 @@ def run_config(files, enums, entry, mem, inline, returns=None):
         for e in entry:
             if e == "FORCE":
                 it.ops.append(("reb_simulation_update_acceleration", [Path("r")]))   # the driver's force evaluation between part1 and part2
+            elif isinstance(e, tuple):
+                it.run(e[0], e[1](dt))
             else:
                 it.run(e, [Path("r")])
         runs.append(it.ops)
@@ -1027,7 +1029,10 @@ def run_config(files, enums, entry, mem, inline, returns=None):
                 args.append(Coef([Fraction(v) for v in vs]))
             elif all(isinstance(v, Lin) for v in vs):
                 keys = sorted(set().union(*[set(v.d) for v in vs]))
-                args.append({k: Coef([v.coeff(k) for v in vs]) for k in keys})
+                dd = {k: Coef([v.coeff(k) for v in vs]) for k in keys}
+                if any(v.c != 0 for v in vs):
+                    dd["const"] = Coef([v.c for v in vs])
+                args.append(dd)
             else:
                 args.append(str(vs[0]))
         out.append((name, args))
@@ -1036,7 +1041,7 @@ def run_config(files, enums, entry, mem, inline, returns=None):
 
 # primitive operators -> abstract kinds.  The *meaning* of each primitive (kepler step = exact flow of the Kepler part,
 # interaction step = kick by the interaction part for the given coefficient, ...) is the subject of C02/C03/C12.
-K_DRIFT, K_KICK, K_FORCE, K_JUMP, K_CORR = 0, 1, 2, 3, 4
+K_DRIFT, K_KICK, K_FORCE, K_JUMP, K_LAZY = 0, 1, 2, 3, 4
 IGNORED = {"reb_integrator_whfast_init", "reb_integrator_whfast_from_inertial", "reb_integrator_whfast_to_inertial",
            "reb_particles_transform_jacobi_to_inertial_pos", "reb_particles_transform_jacobi_to_inertial_posvel",
            "reb_particles_transform_inertial_to_jacobi_acc",
@@ -1045,19 +1050,122 @@ IGNORED = {"reb_integrator_whfast_init", "reb_integrator_whfast_from_inertial", 
            "malloc", "memcpy", "free", "realloc", "to_double", "to_int", "reb_simulation_warning"}
 
 
+def _uniform(vals, what):
+    vs = list(vals)
+    if any(v != vs[0] for v in vs):
+        raise ExtractError("%s differs between particles/components: %s" % (what, vs[:4]))
+    return vs[0]
+
+
 def abstract(ops, family):
-    """[(name, args)] -> [(kind, a, b)] with exact Fractions; checks that every coefficient has the dt power its kind requires"""
+    """[(name, args)] -> [(kind, a, b)] with exact Fractions.
+    kind 0 drift(a·dt; b = 1 when the centre-of-mass step accompanies the Kepler step),
+         1 kick(a·dt, jerk coefficient b·dt^3), 2 force evaluation, 3 jump step(a·dt).
+    Checks that every coefficient is proportional to the power of dt its kind requires.  Particle-array stores
+    between primitives are folded into the kick they modify (modified-kick kernels) or into a finite-difference
+    jerk kick (lazy kernels); any other store pattern is an extraction error."""
     out = []
-    for name, args in ops:
+    acc = [Fraction(1), Fraction(0), 0]        # particles[].a = acc[0]·(acceleration) + acc[1]·dt^acc[2]·(jerk)
+    stores = []
+
+    def flush_stores():
+        """interpret the pending particle-array stores"""
+        nonlocal stores
+        if not stores:
+            return
+        st, stores = stores, []
+        tgt_a = [x for x in st if re.search(r"\.a[xyz]$", x[0])]
+        tgt_x = [x for x in st if re.search(r"\.[xyz]$", x[0])]
+        tgt_v = [x for x in st if re.search(r"\.v[xyz]$", x[0])]
+        if tgt_a and not tgt_x and not tgt_v:
+            # a_i := alpha·a_i + beta·jerk_i      (jerk lives in the p_jh buffer)
+            alphas, betas = [], []
+            for path, lin in tgt_a:
+                comp = path[path.rindex("."):]
+                a_self = lin.get(path)
+                others = [(k, v) for k, v in lin.items() if k != path]
+                if len(others) != 1 or not others[0][0].endswith(comp) or lin.get("const"):
+                    raise ExtractError("unrecognised acceleration update %s := %s" % (path, lin))
+                alphas.append((a_self.val, a_self.pow) if a_self is not None else (Fraction(0), 0))
+                betas.append((others[0][1].val, others[0][1].pow))
+            al, be = _uniform(alphas, "acceleration scaling"), _uniform(betas, "jerk coefficient")
+            if al[0] != 0 and al[1] != 0:
+                raise ExtractError("acceleration scaling depends on dt")
+            acc[0], acc[1], acc[2] = al[0], be[0], be[1]
+            return
+        if tgt_x and not tgt_a:
+            # lazy implementer's commutator: x += c1·a_old ; (force) ; v += c2·(a_new - a_old) ; x := x_old
+            raise ExtractError("position store outside the lazy-kernel pattern")
+        raise ExtractError("unrecognised particle stores: %s" % (st[:3],))
+
+    lazy = None      # state machine for the lazy pattern
+    i = 0
+    ops = list(ops)
+    while i < len(ops):
+        name, args = ops[i]
+        i += 1
         if name in IGNORED:
             continue
-        def co(i, power):
-            c = args[i]
+
+        def co(j, power):
+            c = args[j]
             if not isinstance(c, Coef):
-                raise ExtractError("%s: argument %d is not a tracked number: %r" % (name, i, c))
+                raise ExtractError("%s: argument %d is not a tracked number: %r" % (name, j, c))
             if c.val != 0 and c.pow != power:
                 raise ExtractError("%s: coefficient %r is not proportional to dt^%d" % (name, c, power))
             return c.val
+        if name == "store":
+            path, lin = args
+            if re.search(r"\.[xyz]$", path) or re.search(r"\.v[xyz]$", path):
+                # collect the whole lazy block: stores x+=c1 a_old | force | stores v += c2 (a - a_old), x := x_old
+                blk1 = [(path, lin)]
+                while i < len(ops) and ops[i][0] == "store":
+                    blk1.append(tuple(ops[i][1])); i += 1
+                if all(re.search(r"\.[xyz]$", p_) for p_, _ in blk1):
+                    c1s = []
+                    for p_, l_ in blk1:
+                        oth = [(k, v) for k, v in l_.items() if k != p_]
+                        if l_.get(p_) is None or l_[p_].val != 1 or len(oth) != 1 or not re.search(r"\.a[xyz]$", oth[0][0]):
+                            raise ExtractError("unrecognised position update %s := %s" % (p_, l_))
+                        c1s.append((oth[0][1].val, oth[0][1].pow))
+                    c1 = _uniform(c1s, "lazy position offset")
+                    # expect: (ignored transforms) force (ignored) then the velocity block
+                    saw_force = False
+                    while i < len(ops) and ops[i][0] != "store":
+                        if ops[i][0] == "reb_simulation_update_acceleration":
+                            saw_force = True
+                        elif ops[i][0] not in IGNORED:
+                            raise ExtractError("unexpected %s inside lazy kernel" % ops[i][0])
+                        i += 1
+                    blk2 = []
+                    while i < len(ops) and ops[i][0] == "store":
+                        blk2.append(tuple(ops[i][1])); i += 1
+                    vs = [(p_, l_) for p_, l_ in blk2 if re.search(r"\.v[xyz]$", p_)]
+                    xs = [(p_, l_) for p_, l_ in blk2 if re.search(r"\.[xyz]$", p_)]
+                    if not saw_force or len(vs) != len(blk1) or len(xs) != len(blk1) or len(vs) + len(xs) != len(blk2):
+                        raise ExtractError("lazy kernel pattern not recognised")
+                    c2s = []
+                    for p_, l_ in vs:
+                        oth = sorted((k, v) for k, v in l_.items() if k != p_)
+                        if l_.get(p_) is None or l_[p_].val != 1 or len(oth) != 2 or oth[0][1].val != -oth[1][1].val or oth[0][1].pow != oth[1][1].pow:
+                            raise ExtractError("unrecognised lazy velocity update %s := %s" % (p_, l_))
+                        new = [v for k, v in oth if "temp" not in k]
+                        if len(new) != 1:
+                            raise ExtractError("unrecognised lazy velocity update %s := %s" % (p_, l_))
+                        c2s.append((new[0].val, new[0].pow))
+                    for p_, l_ in xs:
+                        if len(l_) != 1 or list(l_.values())[0].val != 1 or "temp" not in list(l_)[0]:
+                            raise ExtractError("lazy kernel does not restore the positions: %s := %s" % (p_, l_))
+                    c2 = _uniform(c2s, "lazy velocity factor")
+                    if c1[1] + c2[1] != 3:
+                        raise ExtractError("lazy kernel coefficient is not proportional to dt^3")
+                    out.append((K_FORCE, Fraction(0), Fraction(0)))
+                    out.append((K_LAZY, Fraction(0), c1[0] * c2[0]))
+                    continue
+                raise ExtractError("unrecognised particle stores: %s" % (blk1[:2],))
+            stores.append((path, lin))
+            continue
+        flush_stores()
         if name == "reb_whfast_kepler_step":
             out.append((K_DRIFT, co(1, 1), Fraction(0)))      # b = 1 once the matching centre-of-mass step is seen
         elif name == "reb_whfast_com_step":
@@ -1066,20 +1174,261 @@ def abstract(ops, family):
                 raise ExtractError("com step %s does not pair with the preceding kepler step" % c)
             out[-1] = (K_DRIFT, c, Fraction(1))
         elif name == "reb_whfast_interaction_step":
-            out.append((K_KICK, co(1, 1), Fraction(0)))
+            x = co(1, 1)
+            if acc[1] != 0 and acc[2] != 2:
+                raise ExtractError("jerk coefficient is not proportional to dt^3")
+            out.append((K_KICK, acc[0] * x, acc[1] * x))
+        elif name == "reb_whfast_calculate_jerk":
+            pass
         elif name == "reb_whfast_jump_step":
             out.append((K_JUMP, co(1, 1), Fraction(0)))
         elif name == "reb_simulation_update_acceleration":
+            acc[0], acc[1], acc[2] = Fraction(1), Fraction(0), 0
             out.append((K_FORCE, Fraction(0), Fraction(0)))
         elif name in ("reb_integrator_eos_drift_shell0", "reb_integrator_eos_drift_shell1"):
-            out.append((K_DRIFT, co(1, 1), Fraction(0)))
+            out.append((K_DRIFT, co(1, 1), Fraction(1)))
         elif name in ("reb_integrator_eos_interaction_shell0", "reb_integrator_eos_interaction_shell1"):
             out.append((K_FORCE, Fraction(0), Fraction(0)))   # both interaction routines evaluate the force themselves
             out.append((K_KICK, co(1, 1), co(2, 3)))
         elif name == "drift" and family == "janus":
-            out.append((K_DRIFT, co(1, 1), Fraction(0)))
+            out.append((K_DRIFT, co(1, 1), Fraction(1)))
         elif name == "kick" and family == "janus":
             out.append((K_KICK, co(1, 1), Fraction(0)))
         else:
             raise ExtractError("unknown primitive %s in %s schedule" % (name, family))
+    flush_stores()
     return out
+
+
+def abstract_leapfrog(ops):
+    """leapfrog updates the particle arrays directly: read drift/kick coefficients off the stores"""
+    out = []
+    groups = {}
+    seq = []
+    for name, args in ops:
+        if name == "reb_simulation_update_acceleration":
+            seq.append(("force",))
+        elif name == "store":
+            path, lin = args
+            seq.append(("store", path, lin))
+        else:
+            raise ExtractError("unexpected %s in leapfrog" % name)
+    i = 0
+    while i < len(seq):
+        if seq[i][0] == "force":
+            out.append((K_FORCE, Fraction(0), Fraction(0))); i += 1
+            continue
+        # consecutive stores of the same kind (positions or velocities) form one operator; leapfrog's part2 interleaves
+        # v and x updates per particle, which is the same map because x_i only reads v_i
+        blk = []
+        while i < len(seq) and seq[i][0] == "store":
+            blk.append(seq[i][1:]); i += 1
+        vs = [(p_, l_) for p_, l_ in blk if re.search(r"\.v[xyz]$", p_)]
+        xs = [(p_, l_) for p_, l_ in blk if re.search(r"\.[xyz]$", p_)]
+        if len(vs) + len(xs) != len(blk):
+            raise ExtractError("leapfrog stores to something else than x, v")
+        def one(items, src_re, what):
+            cs = []
+            for p_, l_ in items:
+                oth = [(k, v) for k, v in l_.items() if k != p_]
+                if l_.get(p_) is None or l_[p_].val != 1 or len(oth) != 1 or not re.search(src_re, oth[0][0]) \
+                        or oth[0][0].split(".")[-1][-1] != p_[-1] or oth[0][0].rsplit(".", 1)[0] != p_.rsplit(".", 1)[0]:
+                    raise ExtractError("unrecognised leapfrog update %s := %s" % (p_, l_))
+                if oth[0][1].pow != 1:
+                    raise ExtractError("leapfrog coefficient not proportional to dt")
+                cs.append(oth[0][1].val)
+            return _uniform(cs, what)
+        if vs:
+            # a velocity update must precede the position update that uses it (kick then drift)
+            first_v = min(j for j, (p_, _) in enumerate(blk) if re.search(r"\.v[xyz]$", p_))
+            first_x = min([j for j, (p_, _) in enumerate(blk) if re.search(r"\.[xyz]$", p_)] + [len(blk)])
+            if xs and first_x < first_v:
+                raise ExtractError("leapfrog position update precedes the velocity update in one loop")
+            out.append((K_KICK, one(vs, r"\.a[xyz]$", "kick"), Fraction(0)))
+        if xs:
+            out.append((K_DRIFT, one(xs, r"\.v[xyz]$", "drift"), Fraction(1)))
+    return out
+
+
+# ------------------------------------------------------------------------------- whole extraction
+def call_function(files, enums, fname, args, mem=None, inline=()):
+    it = Interp(files, mem or {}, inline)
+    it.enums = enums
+    for f in files:
+        if fname in f.funcs:
+            pn, body = f.func_body(fname)
+            try:
+                it.exec(body, dict(zip(pn, args)))
+            except Return as r:
+                return r.v
+            return None
+    raise ExtractError("function %s not found" % fname)
+
+
+def count_literals(init):
+    if init[0] == "init":
+        return sum(count_literals(x[2] if (isinstance(x, tuple) and x[0] == "field") else x) for x in init[1])
+    return 1
+
+
+def literal_texts(init, out):
+    """the literal texts of an initialiser in order (a leaf that is not a plain signed literal is recorded as None)"""
+    if init[0] == "init":
+        for x in init[1]:
+            literal_texts(x[2] if (isinstance(x, tuple) and x[0] == "field") else x, out)
+        return out
+    if init[0] == "num":
+        out.append(init[1])
+    elif init[0] == "un" and init[1] in "+-" and init[2][0] == "num":
+        out.append(("-" if init[1] == "-" else "") + init[2][1])
+    else:
+        out.append(None)
+    return out
+
+
+SABA_INLINE = {"reb_integrator_saba_synchronize", "reb_saba_stages", "reb_saba_corrector_step"}
+WH_INLINE = {"reb_integrator_whfast_synchronize", "reb_whfast_apply_corrector", "reb_whfast_apply_corrector2",
+             "reb_whfast_corrector_Z", "reb_whfast_operator_C", "reb_whfast_operator_Y", "reb_whfast_operator_U"}
+EOS_INLINE = {"reb_integrator_eos_preprocessor", "reb_integrator_eos_postprocessor", "reb_integrator_eos_synchronize"}
+JANUS_INLINE = {"gg", "reb_integrator_janus_synchronize"}
+
+
+def extract_all(repo):
+    """returns a dict with every table and every schedule; raises ExtractError when the source no longer has the
+    shape the translator understands"""
+    S = os.path.join(repo, "src")
+    enums = parse_enums(os.path.join(S, "rebound.h"))
+    saba = CFile(os.path.join(S, "integrator_saba.c"))
+    wh = CFile(os.path.join(S, "integrator_whfast.c"))
+    eos = CFile(os.path.join(S, "integrator_eos.c"))
+    jan = CFile(os.path.join(S, "integrator_janus.c"))
+    ias = CFile(os.path.join(S, "integrator_ias15.c"))
+    lf = CFile(os.path.join(S, "integrator_leapfrog.c"))
+    D = {"tables": {}, "enums": {}}
+
+    # ---- tables
+    def table(f, name, key=None):
+        if name not in f.globals:
+            raise ExtractError("table %s not found in %s" % (name, os.path.basename(f.path)))
+        ty, dims, init = f.globals[name]
+        it = Interp([f])
+        it.enums = enums
+        v = it.global_value(name)
+        D["tables"][key or name] = {"file": os.path.basename(f.path), "name": name, "type": ty, "value": v,
+                                    "explicit": count_literals(init), "literals": literal_texts(init, []),
+                                    "text": f.definition_text(name)}
+        return v
+    for n in ("reb_saba_c", "reb_saba_d", "reb_saba_cc"):
+        table(saba, n)
+    eos_tabs = sorted(n for n in eos.globals if re.match(r"(lf|pmlf|plf)\w*_[a-z]$|lf4_a$|lf4_2_a$", n))
+    for n in eos_tabs:
+        table(eos, n, "eos_" + n)
+    D["eos_table_names"] = eos_tabs
+    jschemes = sorted(n for n, (ty, _, _) in jan.globals.items() if "reb_janus_scheme" in ty)
+    for n in jschemes:
+        table(jan, n, "janus_" + n)
+    D["janus_scheme_names"] = jschemes
+    D["janus_struct_text"] = jan.struct_text("reb_janus_scheme")
+    wh_a = sorted((n for n in wh.globals if re.match(r"reb_whfast_corrector_a_\d+$", n)), key=lambda s: int(s.rsplit("_", 1)[1]))
+    wh_b = sorted((n for n in wh.globals if re.match(r"reb_whfast_corrector_b_\d+$", n)), key=lambda s: int(s.rsplit("_", 1)[1]))
+    for n in wh_a + wh_b + ["reb_whfast_corrector2_b"]:
+        table(wh, n)
+    D["whfast_a_names"], D["whfast_b_names"] = wh_a, wh_b
+    for n in ("h", "rr", "c", "d", "w"):
+        table(ias, n, "ias15_" + n)
+
+    # ---- SABA
+    D["enums"]["saba"] = sorted(((k, v) for k, v in enums.items() if k.startswith("REB_SABA_")), key=lambda kv: kv[1])
+    base = {"r.N": 2, "r.N_var": 0, "r.N_active": -1, "r.testparticle_type": 0, "r.N_var_config": 0, "r.t": Fraction(0),
+            "r.ri_whfast.coordinates": 0, "r.ri_whfast.recalculate_coordinates_this_timestep": 0,
+            "r.ri_whfast.p_jh": Path("pjh"), "r.ri_whfast.N_allocated_tmp": 2, "r.ri_whfast.p_temp": Path("ptemp"),
+            "r.ri_whfast.safe_mode": 1, "r.ri_whfast.is_synchronized": 1, "r.ri_whfast.keep_unsynchronized": 0,
+            "r.ri_whfast.recalculate_coordinates_but_not_synchronized_warning": 0, "r.particles": Path("r.particles"),
+            "r.ri_whfast.kernel": 0, "r.ri_whfast.corrector": 0, "r.ri_whfast.corrector2": 0,
+            "r.ri_saba.safe_mode": 1, "r.ri_saba.is_synchronized": 1, "r.ri_saba.keep_unsynchronized": 0}
+    D["saba"] = []
+    for name, val in D["enums"]["saba"]:
+        stages = call_function([saba], enums, "reb_saba_stages", [val])
+        m = dict(base); m["r.ri_saba.type"] = val
+        step = ["reb_integrator_saba_part1", "FORCE", "reb_integrator_saba_part2"]
+        one = abstract(run_config([saba, wh], enums, step, m, SABA_INLINE, {"reb_integrator_whfast_init": 0}), "saba")
+        m2 = dict(m); m2["r.ri_saba.safe_mode"] = 0
+        two = abstract(run_config([saba, wh], enums, step + step + ["reb_integrator_saba_synchronize"], m2, SABA_INLINE,
+                                  {"reb_integrator_whfast_init": 0}), "saba")
+        D["saba"].append({"name": name, "value": val, "stages": stages, "step": one, "two_unsync": two})
+
+    # ---- WHFast
+    D["enums"]["whfast_kernel"] = sorted(((k, v) for k, v in enums.items() if k.startswith("REB_WHFAST_KERNEL_")), key=lambda kv: kv[1])
+    D["enums"]["whfast_coordinates"] = sorted(((k, v) for k, v in enums.items() if k.startswith("REB_WHFAST_COORDINATES_")), key=lambda kv: kv[1])
+    corr_orders = [0]
+    # the orders accepted by reb_whfast_apply_corrector: those of the b tables
+    seen = sorted({int(re.match(r"reb_whfast_corrector_b_(\d+?)(\d)$", n).group(1)) for n in wh_b})
+    corr_orders += seen
+    D["whfast_corrector_orders"] = corr_orders
+    D["whfast"] = []
+    step = ["reb_integrator_whfast_part1", "FORCE", "reb_integrator_whfast_part2"]
+    for cname, coord in D["enums"]["whfast_coordinates"]:
+        for kname, kern in D["enums"]["whfast_kernel"]:
+            for corr in corr_orders:
+                for c2 in (0, 1):
+                    m = dict(base)
+                    m.update({"r.ri_whfast.coordinates": coord, "r.ri_whfast.kernel": kern, "r.ri_whfast.corrector": corr,
+                              "r.ri_whfast.corrector2": c2})
+                    # configurations rejected by reb_integrator_whfast_init (not interpreted here) are decided by running init
+                    try:
+                        rej = run_config([wh], enums, ["reb_integrator_whfast_init"], m, set(), {})
+                        rejected = False
+                    except ExtractError as ex:
+                        if "source rejects" not in str(ex):
+                            raise
+                        rejected = True
+                    ent = {"coordinates": coord, "kernel": kern, "corrector": corr, "corrector2": c2, "rejected": rejected}
+                    if not rejected:
+                        ent["step"] = abstract(run_config([wh], enums, step, m, WH_INLINE, {"reb_integrator_whfast_init": 0}), "whfast")
+                        m2 = dict(m); m2["r.ri_whfast.safe_mode"] = 0
+                        ent["two_unsync"] = abstract(run_config([wh], enums, step + step + ["reb_integrator_whfast_synchronize"], m2,
+                                                                WH_INLINE, {"reb_integrator_whfast_init": 0}), "whfast")
+                    D["whfast"].append(ent)
+    D["whfast_correctors"] = []
+    for corr in corr_orders[1:]:
+        for inv in (1, -1):
+            ops = run_config([wh], enums, [("reb_whfast_apply_corrector", lambda dt, inv=inv, corr=corr: [Path("r"), Fraction(inv), corr])],
+                             dict(base), WH_INLINE - {"reb_whfast_apply_corrector"} | {"reb_whfast_corrector_Z"}, {})
+            D["whfast_correctors"].append({"order": corr, "inv": inv, "ops": abstract(ops, "whfast")})
+
+    # ---- EOS
+    D["enums"]["eos"] = sorted(((k, v) for k, v in enums.items() if k.startswith("REB_EOS_")), key=lambda kv: kv[1])
+    ebase = {"r.t": Fraction(0), "r.calculate_megno": 0, "r.ri_eos.safe_mode": 1, "r.ri_eos.is_synchronized": 1, "r.ri_eos.n": 1,
+             "r.ri_eos.phi0": 0, "r.ri_eos.phi1": 0, "r.N": 2}
+    D["eos"] = []
+    for name, val in D["enums"]["eos"]:
+        m = dict(ebase); m["r.ri_eos.phi0"] = val
+        step = ["reb_integrator_eos_part1", "reb_integrator_eos_part2"]
+        outer = abstract(run_config([eos], enums, step, m, EOS_INLINE), "eos")
+        m2 = dict(m); m2["r.ri_eos.safe_mode"] = 0
+        outer2 = abstract(run_config([eos], enums, step + step + ["reb_integrator_eos_synchronize"], m2, EOS_INLINE), "eos")
+        inner = {}
+        for n in (1, 2, 3, 4):
+            mi = dict(ebase); mi["r.ri_eos.phi1"] = val; mi["r.ri_eos.n"] = n
+            inner[n] = abstract(run_config([eos], enums, [("reb_integrator_eos_drift_shell0", lambda dt: [Path("r"), dt])], mi, EOS_INLINE), "eos")
+        D["eos"].append({"name": name, "value": val, "outer": outer, "outer_two_unsync": outer2, "inner": inner})
+
+    # ---- JANUS
+    D["janus"] = []
+    jbase = {"r.N": 2, "r.t": Fraction(0), "r.ri_janus.N_allocated": 2, "r.ri_janus.recalculate_integer_coordinates_this_timestep": 0,
+             "r.ri_janus.scale_pos": Fraction(1, 10 ** 16), "r.ri_janus.scale_vel": Fraction(1, 10 ** 16), "r.ri_janus.p_int": Path("pint"),
+             "r.particles": Path("r.particles")}
+    orders = []
+    for n in jschemes:
+        v = D["tables"]["janus_" + n]["value"]
+        orders.append((v["order"], v["stages"], n))
+    for order, stages, n in sorted(orders):
+        m = dict(jbase); m["r.ri_janus.order"] = order
+        ops = run_config([jan], enums, ["reb_integrator_janus_part1", "FORCE", "reb_integrator_janus_part2"], m, JANUS_INLINE)
+        D["janus"].append({"order": order, "stages": stages, "scheme": n, "step": abstract(ops, "janus")})
+
+    # ---- LEAPFROG
+    lbase = {"r.N": 1, "r.t": Fraction(0), "r.particles": Path("r.particles")}
+    ops = run_config([lf], enums, ["reb_integrator_leapfrog_part1", "FORCE", "reb_integrator_leapfrog_part2"], lbase, set())
+    D["leapfrog"] = abstract_leapfrog(ops)
+    return D
